@@ -60,11 +60,12 @@ impl BlocksCount {
 
     /// Returns count of blocks between positions
     /// # Notes
-    /// `prev` must be lover than `self`
+    /// `prev` must be lover than `self`, zero blocks are reported for a position
+    /// behind `prev` on the same line (frame clock moved back by a snapshot load)
     pub fn passed_from(&self, prev: &BlocksCount) -> usize {
         match self.lines {
             lines if lines < prev.lines => ATTR_COLS - prev.columns,
-            lines if lines == prev.lines => self.columns - prev.columns,
+            lines if lines == prev.lines => self.columns.saturating_sub(prev.columns),
             _ => {
                 (ATTR_COLS - prev.columns)
                     + (self.lines - prev.lines - 1) * ATTR_COLS
